@@ -33,6 +33,7 @@ type wTxn struct {
 	VSize  int   `json:"vs"`
 	Async  bool  `json:"async,omitempty"` // CommitWith
 	Big    bool  `json:"big,omitempty"`   // too many writes for one transaction: must be rejected without a trace
+	Rotate bool  `json:"rot,omitempty"`   // mark the memtable full first: the commit spans a rotation (and a flush)
 }
 
 type histProg struct {
@@ -75,6 +76,7 @@ func genHist(t *rapid.T) histProg {
 			}
 			tx.Async = rapid.IntRange(0, 3).Draw(t, "async") == 0
 			tx.Big = rapid.IntRange(0, 30).Draw(t, "big") == 0
+			tx.Rotate = rapid.IntRange(0, 7).Draw(t, "rotate") == 0
 			txns = append(txns, tx)
 		}
 		p.Writers = append(p.Writers, txns)
@@ -159,6 +161,9 @@ func runHist(p histProg, rec *evid.Rec) (core.Result, error) {
 			o.NumCompactors = 2
 		}
 		o.NumLevelZeroTablesStall = 15
+		if !p.Compact {
+			o.NumLevelZeroTablesStall = 100000 // nobody would ever relieve a stall
+		}
 	})
 	if err != nil {
 		return res, fmt.Errorf("open: %v", err)
@@ -238,6 +243,9 @@ func runHist(p histProg, rec *evid.Rec) (core.Result, error) {
 					e.ret = stamp.Add(1)
 					add(e)
 					continue
+				}
+				if tx.Rotate {
+					db.VerifMarkFull()
 				}
 				e.inv = stamp.Add(1)
 				if tx.Async {
